@@ -1,7 +1,7 @@
 (* Property C01 -- port pressure is a feasible split of each instruction's micro-ops.
    Theorems only; proofs are in Proofs/{Feasible,PressureQ,BalanceFrame}.v. *)
 From Coq Require Import QArith List Bool String ZArith PrimFloat.
-From OV Require Import Model.Num Model.Pressure Proofs.Feasible Proofs.PressureQ Proofs.BalanceFrame.
+From OV Require Import Model.Num Model.Pressure Model.Family Model.Family2 Proofs.Feasible Proofs.PressureQ Proofs.BalanceFrame Proofs.Family2.
 Import ListNotations.
 Open Scope Q_scope.
 
@@ -69,6 +69,29 @@ Proof.
 Qed.
 Print Assumptions C01_second_pass_refuted.
 Close Scope float_scope.
+
+(* (6) ONE optimisation pass on multi-micro-op instructions, bounded family, bit-exact binary64 model: for every
+       kernel of length <= 2 over all forms with one or two 1-cycle micro-ops on non-empty subsets of 3 ports (3192
+       kernels, complete for that shape) every instruction's pressure is exactly feasible under uniform scheduling and,
+       after one balancing pass, non-negative up to 0.005 per micro-op using the port, supported on admissible ports,
+       adds up to the micro-ops' cycles and satisfies Hall's condition for every port set up to 0.005 per
+       (micro-op not confined to the set, port of it in the set) -- finite sweep, comparisons in exact rationals.
+       After the CLI's two passes 798 of the 3192 kernels violate this (the known finding, counted exactly). *)
+Theorem C01_family2_complete : forall w,
+  (forall f, In f w -> In f all_forms2) -> (List.length w = 1%nat \/ List.length w = 2%nat) -> In w family2.
+Proof. exact family2_complete. Qed.
+Print Assumptions C01_family2_complete.
+
+Theorem C01_family2_uniform_exact_and_once_feasible : forall w, In w family2 -> uniform_ok w = true /\ once_ok w = true.
+Proof.
+  intros w H. pose proof family2_sweep as S. rewrite forallb_forall in S. specialize (S w H).
+  apply andb_true_iff in S. exact S.
+Qed.
+Print Assumptions C01_family2_uniform_exact_and_once_feasible.
+
+Theorem C01_family2_second_pass_refuted_count : List.length (filter (fun w => negb (twice_ok w)) family2) = 798%nat.
+Proof. exact family2_twice_count. Qed.
+Print Assumptions C01_family2_second_pass_refuted_count.
 
 (* non-vacuity: a concrete well-formed micro-op list satisfies the hypotheses of (1) *)
 Example C01_nonvacuous :
